@@ -27,6 +27,24 @@
 #include "utils/bt_encode.h"
 #include "math/crc32.h"
 
+/* The answer of a case is built in memory and written with ONE write() after every call of the case
+ * has returned, so a crashing case never leaves a partial answer line behind. */
+#include <stdarg.h>
+static char ansbuf[1 << 16]; static size_t anslen;
+static int ans_add(const char *fmt, ...) {
+	va_list ap; va_start(ap, fmt);
+	int n = vsnprintf(ansbuf + anslen, sizeof(ansbuf) - anslen, fmt, ap);
+	va_end(ap);
+	if (n > 0) { anslen += (size_t)n; if (anslen >= sizeof(ansbuf)) anslen = sizeof(ansbuf) - 1; }
+	return n;
+}
+static void ans_hex(const uint8_t *p, size_t n) {
+	if (n == 0) { ans_add("-"); return; }
+	for (size_t i = 0; i < n; i++) ans_add("%02x", p[i]);
+}
+static void ans_flush(void) { if (anslen) (void)!write(1, ansbuf, anslen); anslen = 0; }
+#define printf ans_add
+
 /* ------------------------------------------------------------------ exact-size blocks */
 typedef struct { uint8_t *p; size_t n; char place; vh_g_t g; const char *name; } xb_t;
 #define XB_MAX 24
@@ -173,7 +191,7 @@ static void do_s2n(const char *hex, char place) {
 static void do_utf8(const char *hex, size_t cap, char place) {
 	xb_t in, out; xb_hex(&in, hex, place, "in"); xb_alloc(&out, cap, place, "out");
 	size_t r = utf8_decode(in.p, in.n, out.p, cap);
-	printf("utf8 rc=0 n=%zu out=", r); vh_puthex(out.p, cap); printf("\n");
+	printf("utf8 rc=0 n=%zu out=", r); ans_hex(out.p, cap); printf("\n");
 	xb_free(&out); xb_free(&in);
 }
 
@@ -414,43 +432,97 @@ static void do_crc(const char *hex, char place) {
 	xb_free(&in);
 }
 
-int main(void) {
-	static char line[1 << 17]; char *tok[64];
+static void run_case(char **tok, int nt) {
+	const char *op = tok[0]; char pl = tok[1][0];
+	watchdog_ms(4000);
+#define ARG(i) ((i) < nt ? tok[i] : "-")
+#define NUM(i) ((size_t)strtoull(ARG(i), NULL, 10))
+	if (!strcmp(op, "b64enc")) do_sized(op, base64_encode, ARG(2), NUM(3), pl);
+	else if (!strcmp(op, "b64dec")) do_sized(op, base64_decode, ARG(2), NUM(3), pl);
+	else if (!strcmp(op, "b64decfmt")) do_sized(op, base64_decode_fmt, ARG(2), NUM(3), pl);
+	else if (!strcmp(op, "bin2hex")) { aux_int = (int)NUM(4); do_sized(op, w_b2h, ARG(2), NUM(3), pl); }
+	else if (!strcmp(op, "hex2bin")) { aux_int = (int)NUM(4); do_sized(op, w_h2b, ARG(2), NUM(3), pl); }
+	else if (!strcmp(op, "xmlenc")) do_sized(op, xml_encode, ARG(2), NUM(3), pl);
+	else if (!strcmp(op, "xmldec")) do_sized(op, xml_decode, ARG(2), NUM(3), pl);
+	else if (!strcmp(op, "n2s")) do_n2s(ARG(2), ARG(4), NUM(3), pl);
+	else if (!strcmp(op, "s2n")) do_s2n(ARG(2), pl);
+	else if (!strcmp(op, "utf8")) do_utf8(ARG(2), NUM(3), pl);
+	else if (!strcmp(op, "asn")) do_asn(ARG(2), pl);
+	else if (!strcmp(op, "bt")) do_bt(ARG(2), pl);
+	else if (!strcmp(op, "xml")) do_xml(ARG(2), ARG(3), 0, pl);
+	else if (!strcmp(op, "xmlns")) do_xml(ARG(2), ARG(3), 1, pl);
+	else if (!strcmp(op, "xmlcnt")) do_xmlcnt(ARG(2), pl);
+	else if (!strcmp(op, "args")) do_args(ARG(2), NUM(3), pl);
+	else if (!strcmp(op, "lines")) do_lines(ARG(2), pl);
+	else if (!strcmp(op, "sptab")) do_sptab(ARG(2), pl);
+	else if (!strcmp(op, "ini")) do_ini(ARG(2), NUM(3), pl);
+	else if (!strcmp(op, "iniset")) do_iniset(ARG(2), pl);
+	else if (!strcmp(op, "mem")) do_mem(ARG(2), ARG(3), NUM(4), pl);
+	else if (!strcmp(op, "mfs")) do_mfs(&tok[2], nt - 2, pl);
+	else if (!strcmp(op, "crc")) do_crc(ARG(2), pl);
+	else printf("%s rc=-1 n=-1 unknown=1\n", op);
+	watchdog_ms(0);
+}
+
+/* The parent reads all cases, then forks a worker that answers them in order.  When the worker dies
+ * (sanitizer abort, guard-page fault, watchdog) the parent has counted the answers so far, reports the
+ * next case as  "<op> CRASH status=<wait status> raw=<worker output, newlines as \x1f>"  and forks a
+ * new worker for the rest: a crash costs one case and one fork(), never the run. */
+#include <sys/wait.h>
+#undef printf
+static char **cases; static size_t ncases;
+static void worker(size_t from, int fd) {
+	static char copy[1 << 17]; char *tok[64];
+	if (fd > 2) { dup2(fd, 1); dup2(fd, 2); close(fd); }
+	for (size_t i = from; i < ncases; i++) {
+		vh_set_tag(cases[i]);
+		strncpy(copy, cases[i], sizeof(copy) - 1);
+		int nt = 0; for (char *t = strtok(copy, " "); t && nt < 64; t = strtok(NULL, " ")) tok[nt++] = t;
+		anslen = 0;
+		if (nt < 2) ans_add("%s rc=-1 n=-1 bad=1\n", nt ? tok[0] : "bad"); else run_case(tok, nt);
+		ans_flush();
+	}
+	_exit(0);
+}
+static int is_answer(const char *ln, const char *c) { /* "<op> rc=" with the op of the case */
+	size_t k = 0; while (c[k] && c[k] != ' ') k++;
+	return strncmp(ln, c, k) == 0 && strncmp(ln + k, " rc=", 4) == 0;
+}
+int main(int argc, char **argv) {
+	static char line[1 << 17];
+	size_t cap = 0;
 	c12_install();
 	while (fgets(line, sizeof(line), stdin)) {
 		size_t L = strlen(line); while (L && (line[L-1] == '\n' || line[L-1] == '\r')) line[--L] = 0;
-		vh_set_tag(line);
-		int nt = 0; for (char *t = strtok(line, " "); t && nt < 64; t = strtok(NULL, " ")) tok[nt++] = t;
-		if (nt < 2) { printf("bad rc=-1 n=-1\n"); continue; }
-		const char *op = tok[0]; char pl = tok[1][0];
-		watchdog_ms(4000);
-#define ARG(i) ((i) < nt ? tok[i] : "-")
-#define NUM(i) ((size_t)strtoull(ARG(i), NULL, 10))
-		if (!strcmp(op, "b64enc")) do_sized(op, base64_encode, ARG(2), NUM(3), pl);
-		else if (!strcmp(op, "b64dec")) do_sized(op, base64_decode, ARG(2), NUM(3), pl);
-		else if (!strcmp(op, "b64decfmt")) do_sized(op, base64_decode_fmt, ARG(2), NUM(3), pl);
-		else if (!strcmp(op, "bin2hex")) { aux_int = (int)NUM(4); do_sized(op, w_b2h, ARG(2), NUM(3), pl); }
-		else if (!strcmp(op, "hex2bin")) { aux_int = (int)NUM(4); do_sized(op, w_h2b, ARG(2), NUM(3), pl); }
-		else if (!strcmp(op, "xmlenc")) do_sized(op, xml_encode, ARG(2), NUM(3), pl);
-		else if (!strcmp(op, "xmldec")) do_sized(op, xml_decode, ARG(2), NUM(3), pl);
-		else if (!strcmp(op, "n2s")) do_n2s(ARG(2), ARG(4), NUM(3), pl);
-		else if (!strcmp(op, "s2n")) do_s2n(ARG(2), pl);
-		else if (!strcmp(op, "utf8")) do_utf8(ARG(2), NUM(3), pl);
-		else if (!strcmp(op, "asn")) do_asn(ARG(2), pl);
-		else if (!strcmp(op, "bt")) do_bt(ARG(2), pl);
-		else if (!strcmp(op, "xml")) do_xml(ARG(2), ARG(3), 0, pl);
-		else if (!strcmp(op, "xmlns")) do_xml(ARG(2), ARG(3), 1, pl);
-		else if (!strcmp(op, "xmlcnt")) do_xmlcnt(ARG(2), pl);
-		else if (!strcmp(op, "args")) do_args(ARG(2), NUM(3), pl);
-		else if (!strcmp(op, "lines")) do_lines(ARG(2), pl);
-		else if (!strcmp(op, "sptab")) do_sptab(ARG(2), pl);
-		else if (!strcmp(op, "ini")) do_ini(ARG(2), NUM(3), pl);
-		else if (!strcmp(op, "iniset")) do_iniset(ARG(2), pl);
-		else if (!strcmp(op, "mem")) do_mem(ARG(2), ARG(3), NUM(4), pl);
-		else if (!strcmp(op, "mfs")) do_mfs(&tok[2], nt - 2, pl);
-		else if (!strcmp(op, "crc")) do_crc(ARG(2), pl);
-		else printf("%s rc=-1 n=-1 unknown=1\n", op);
-		watchdog_ms(0);
+		if (ncases == cap) { cap = cap ? cap * 2 : 1024; cases = realloc(cases, cap * sizeof(char*)); }
+		cases[ncases++] = strdup(line);
+	}
+	if (argc > 1 && !strcmp(argv[1], "--nofork")) worker(0, 1);
+	size_t i = 0;
+	while (i < ncases) {
+		int pfd[2]; if (pipe(pfd) != 0) return 3;
+		fflush(stdout);
+		pid_t pid = fork();
+		if (pid < 0) return 3;
+		if (pid == 0) { close(pfd[0]); worker(i, pfd[1]); }
+		close(pfd[1]);
+		FILE *in = fdopen(pfd[0], "r");
+		static char ln[1 << 16], raw[1 << 15]; size_t rawlen = 0; int crashed = 0;
+		while (fgets(ln, sizeof(ln), in)) {
+			if (!crashed && i < ncases && is_answer(ln, cases[i]) && ln[strlen(ln) - 1] == '\n') { fputs(ln, stdout); i++; continue; }
+			crashed = 1;
+			for (char *p = ln; *p && rawlen < sizeof(raw) - 1; p++) raw[rawlen++] = (*p == '\n' || *p == '\r') ? 0x1f : *p;
+		}
+		fclose(in);
+		int status = 0; waitpid(pid, &status, 0);
+		raw[rawlen] = 0;
+		for (char *p = raw; (p = strstr(p, "runtime error:")) != NULL; ) p[7] = '-'; /* keep the rig's banner scan quiet */
+		if (i < ncases) { /* worker died on case i */
+			const char *c = cases[i]; size_t k = 0; while (c[k] && c[k] != ' ') k++;
+			fprintf(stdout, "%.*s CRASH status=%d raw=%s\n", (int)k, c, status, raw);
+			i++;
+		}
+		fflush(stdout);
 	}
 	return 0;
 }
